@@ -75,12 +75,15 @@ def rules(P, R, prefix="C05"):
                 pc = env.flow(f).pathcond(n)
                 ok = False
                 why = ""
-                if arg.endswith(".Some.0") and ".get_ancestors(" in arg:
+                from ..common import sync_fns
+                _gp, _ga = sync_fns(prog, env)
+                ga_name = _ga.name if _ga is not None else "get_ancestors"
+                if arg.endswith(".Some.0") and (".%s(" % ga_name) in arg:
                     A = arg[:-2]
                     req = cmp_formula("==", plus1(A + ".0.round"), A + ".1.round")
                     ok, cex = implies(pc, req)
                     why = "%s => %s" % (show(pc), show(req))
-                    blk = arg[arg.index(".get_ancestors(") + len(".get_ancestors("):]
+                    blk = arg[arg.index(".%s(" % ga_name) + len(".%s(" % ga_name):]
                     blk = blk[:blk.index(")")]
                     R.sample({"rule": prefix + ".K2", "site": n["sp"], "committed": arg, "path_condition": show(pc), "required": show(req)})
                 else:
@@ -88,7 +91,9 @@ def rules(P, R, prefix="C05"):
                 R.judge(ok, prefix + ".K2", key(f, "commit(b0) only if b0.round + 1 == b1.round" + tag, i), n["sp"], why,
                         "commit is reachable without the consecutive-round 2-chain condition: " + why)
         # get_ancestors returns (parent(parent(block)), parent(block))
-        ga = prog.fn(SYNC + "::get_ancestors")
+        from ..common import sync_fns
+        gp_, ga = sync_fns(prog, env)
+        gpn = gp_.name if gp_ is not None else "get_parent_block"
         if R.judge(ga is not None, prefix + ".K2", "anchor get_ancestors" + tag, "", "", "anchor-missing: Synchronizer::get_ancestors",
                    reason="anchor-missing"):
             ctx = env.ctx(ga)
@@ -96,12 +101,12 @@ def rules(P, R, prefix="C05"):
             R.floor(prefix + ".K2", len(tups), 1, "ancestor pair construction" + tag)
             for i, t in enumerate(tups):
                 t0, t1 = ctx.term(t["es"][0]), ctx.term(t["es"][1])
-                ok = t1 == "self.get_parent_block(«Block»).Some" and t0 in ("self.get_parent_block(%s)" % t1, "self.get_parent_block(%s).Some" % t1)
+                ok = t1 == "self.%s(«Block»).Some" % gpn and t0 in ("self.%s(%s)" % (gpn, t1), "self.%s(%s).Some" % (gpn, t1))
                 R.judge(ok, prefix + ".K2", key(ga, "(b0, b1) = (parent(b1), parent(block))" + tag, i), t["sp"], "(%s, %s)" % (t0, t1),
                         "get_ancestors returns (%s, %s): expected (parent(parent(block)), parent(block))" % (t0, t1))
 
         # ---------------- K4 parent lookup key
-        gp = prog.fn(SYNC + "::get_parent_block")
+        gp = gp_
         par = prog.fn(BLOCK + "::parent")
         if R.judge(gp is not None and par is not None, prefix + ".K4", "anchors get_parent_block / Block::parent" + tag, "", "",
                    "anchor-missing", reason="anchor-missing"):
@@ -164,9 +169,9 @@ def rules(P, R, prefix="C05"):
             # (c) synchronizer: forwards blocks it was handed through get_parent_block by Core
             elif any(a.id.startswith(SYNC) for a in W.actors_executing(f, n)):
                 cls = "synchronizer"
-                gpb = prog.fn(SYNC + "::get_parent_block")
+                gpb = gp_
                 ok = gpb is not None
-                callers = prog.calls_to(SYNC + "::get_parent_block") if gpb else []
+                callers = prog.calls_to(gpb.path) if gpb else []
                 bad = []
                 for (cf2, cn2) in callers:
                     if cf2.self_ty not in (CORE, SYNC):
